@@ -170,6 +170,30 @@ reg('C10', 'fault_enumeration',
     'truncation variants); tree copies preserve ns mtimes; refninja for the Ninja half.',
     'DESIGN.md §2 C10')
 
+reg('C14', 'exploration',
+    'real gcc/clang + make builds of generated library DAGs; exit status and stdout of the built '
+    'executables (in place, from elsewhere, after renaming the build dir), readelf/nm on every '
+    'dynamic output, recorded link command lines',
+    'Random and directed DAGs of static/shared/dual/whole-archive libraries and executables in '
+    'nested output dirs under all four --enable/--disable-shared/static modes; each executable '
+    'must print the value the generator model computes, RUNPATH entries must be $ORIGIN-relative '
+    'and resolve every needed project library, forwarded link options / whole-archive members / '
+    'system libraries must be present, and everything must still run after the build dir moved.',
+    'Trusted: gcc 12, clang 14, GNU ld (--as-needed default), glibc ld.so, readelf, nm; only the '
+    'make back end.',
+    'DESIGN.md §2 C14')
+reg('C16', 'exploration',
+    'behavioural probes of really compiled programs (printed predefined macros, readelf sections / '
+    'program headers / entry address, compiler diagnostics) compared with the same probe on a '
+    'hand-written reference build using textbook flags',
+    'Every semantic option and documented value x language x placement (global, per-target, '
+    'link, toolchain file, CFLAGS-style variables), singletons in quick and all pairs in '
+    'thorough (gcc, clang, gfortran); a sub-case is only demanded if the hand-written compiler '
+    'command shows the machine can honour it (calibration), and probes are labelled strong '
+    '(omitting the flag changes the result) or weak.',
+    'Trusted: vf/ref/c16ref.py flag table and probes; the installed compilers.',
+    'DESIGN.md §2 C16')
+
 NOT_APPLICABLE = {}
 
 ALL = ['C%02d' % i for i in range(1, 21)]
